@@ -236,7 +236,9 @@ pub fn threads_child(args: &[String]) -> i32 {
     let mut violations: Vec<serde_json::Value> = Vec::new();
     let mut points_total = 0u64;
     let mut diverged: Option<String> = None;
-    let stats = sched::explore_threads(idxs.len(), body.clone(), *bound, 400, cap, &mut |choices, x| {
+    let forked = args.get(3).map(|s| s.as_str()) == Some("forked");
+    let explore = if forked { sched::explore_threads_forked } else { sched::explore_threads::<String> };
+    let stats = explore(idxs.len(), body.clone(), *bound, 400, cap, &mut |choices, x| {
         points_total += x.points.len() as u64;
         hashes.push(h64(&(j, choices)));
         if let Some(d) = &x.diverged {
@@ -252,14 +254,29 @@ pub fn threads_child(args: &[String]) -> i32 {
         }
     });
     if let Some(d) = diverged {
+        if !forked {
+            // executions influenced each other through process state (the unchanged library has none that
+            // matters): explore again with every execution in its own forked process
+            println!("NOTE: in-process exploration diverged ({}); re-exploring with one process per execution", d);
+            let mut a2 = args.to_vec();
+            while a2.len() < 3 {
+                a2.push("quick".into());
+            }
+            a2.truncate(3);
+            a2.push("forked".into());
+            return threads_child(&a2);
+        }
         println!("MACHINERY-ERROR: thread scheduler lost control: {}", d);
         return 2;
     }
     // a recorded failing schedule must fail identically when replayed
     if let Some(v) = violations.first() {
         let sch: Vec<usize> = v["case"]["schedule"].as_array().map(|a| a.iter().map(|x| x.as_u64().unwrap_or(0) as usize).collect()).unwrap_or_default();
-        let a = sched::run_schedule(idxs.len(), body.clone(), &sch, 400);
-        let b = sched::run_schedule(idxs.len(), body.clone(), &sch, 400);
+        let (a, b) = if forked {
+            (sched::run_schedule_forked(idxs.len(), body.clone(), &sch, 400), sched::run_schedule_forked(idxs.len(), body.clone(), &sch, 400))
+        } else {
+            (sched::run_schedule(idxs.len(), body.clone(), &sch, 400), sched::run_schedule(idxs.len(), body.clone(), &sch, 400))
+        };
         if a.outcomes != b.outcomes {
             println!("MACHINERY-ERROR: replaying a failing schedule twice gave different outcomes");
             return 2;
